@@ -239,10 +239,26 @@ def numeric(expr, env, prec=30):
     return c.real if abs(c.imag) <= 1e-12 * max(1.0, abs(c.real)) else c
 
 
+def _flatten(x):
+    if isinstance(x, (list, tuple)):
+        out = []
+        for v in x:
+            out += _flatten(v)
+        return out
+    return [x]
+
+
 def close(a, b, rel=REL, scale=None) -> bool:
     if isinstance(a, (list, tuple)) or isinstance(b, (list, tuple)):
         if not (isinstance(a, (list, tuple)) and isinstance(b, (list, tuple)) and len(a) == len(b)):
             return False
+        if all(not isinstance(x, (list, tuple)) for x in list(a) + list(b)):
+            # a vector: components are judged against the largest component
+            try:
+                sc = max(abs(complex(x)) for x in list(a) + list(b))
+            except Exception:  # pylint: disable=broad-except
+                return False
+            return all(close(x, y, rel, sc) for x, y in zip(a, b))
         return all(close(x, y, rel) for x, y in zip(a, b))
     try:
         a, b = complex(a), complex(b)
